@@ -20,8 +20,8 @@ ID = 'C12'
 LEVEL = 'exploration'
 RULE = ('exhaustive grid (source length incl. unbounded, start, end, size, orphan, overlap) = '
         'C11\'s grid with one more overlap value, every point rendered over a counting iterator '
-        'and over one more lazy container kind (generator / lazy __getitem__ sequence / re-iterable) '
-        'with rotating body variants (full previous/next variables, minimal, previous-batches, '
+        'and over one more lazy container kind (generator / lazy __getitem__ sequence / re-iterable / sized iterable without __getitem__) '
+        'with rotating body variants (full previous/next variables, minimal, previous-batches, false reverse_expr, '
         'expr= form) and previous/next attribute modes; literal-attribute sample; seeded larger '
         'tuples (length <= 200 or unbounded); unbatched renders of every kind. A batched case is '
         'non-trivial when the source could produce more elements than the bound (unbounded, or '
@@ -57,12 +57,14 @@ SOURCES = {
     'min': '<dtml-in seq' + ATTRS + B_MIN + ELSE,
     'pb': '<dtml-in seq' + ATTRS + B_PB + ELSE,
     'expr': '<dtml-in expr="seq"' + ATTRS + B_MIN + ELSE,
+    # a reverse_expr that evaluates to false requests no reversing: the exception for reversing does not apply
+    'rev0': '<dtml-in seq reverse_expr="rv0"' + ATTRS + B_MIN + ELSE,
     'prev': '<dtml-in seq previous' + ATTRS + 'B' + B_MODE + '<dtml-else>E' + B_MODE + '</dtml-in>',
     'next': '<dtml-in seq next' + ATTRS + 'B' + B_MODE + '<dtml-else>E' + B_MODE + '</dtml-in>',
     'unb': '<dtml-in seq>' + B_MIN + ELSE,
     'unb_expr': '<dtml-in "seq">' + B_MIN + ELSE,
 }
-DISPLAYED = ('full', 'min', 'pb', 'expr', 'literal')
+DISPLAYED = ('full', 'min', 'pb', 'expr', 'rev0', 'literal')
 
 GRID = {}
 for _tier in ('quick', 'thorough'):
@@ -164,7 +166,7 @@ def render(env, case, log):
         vals = [case['start'], case['end'], case['size'], case['orphan'], case['overlap']]
         if case.get('strs'):
             vals = [str(v) for v in vals]
-        return t(seq=seq, st=vals[0], en=vals[1], sz=vals[2], orp=vals[3], ovl=vals[4]), None
+        return t(seq=seq, st=vals[0], en=vals[1], sz=vals[2], orp=vals[3], ovl=vals[4], rv0=0), None
     except PullBudgetExceeded as e:
         return None, e
     except Exception as e:
@@ -382,8 +384,8 @@ def mk(tmpl, kind, n, st, en, sz, orp, ovl, strs=False):
             'orphan': orp, 'overlap': ovl, 'strs': strs}
 
 
-OTHER_KINDS = ('gen', 'lazy', 'iterable')
-VARIANTS = ('min', 'full', 'pb', 'expr')
+OTHER_KINDS = ('gen', 'lazy', 'iterable', 'sized')
+VARIANTS = ('min', 'full', 'pb', 'expr', 'rev0')
 
 
 def run(ctx, spec):
@@ -406,16 +408,16 @@ def run(ctx, spec):
             continue
         j = i // ctx.nshards
         batched(ctx, env, mk('full', 'iter', n, st, en, sz, orp, ovl))
-        variant = VARIANTS[(j // 3) % 4]
+        variant = VARIANTS[(j // len(OTHER_KINDS)) % len(VARIANTS)]
         if variant == 'pb' and not ovl < eff_size(st, en, sz):
             variant = 'min'
-        batched(ctx, env, mk(variant, OTHER_KINDS[j % 3], n, st, en, sz, orp, ovl))
+        batched(ctx, env, mk(variant, OTHER_KINDS[j % len(OTHER_KINDS)], n, st, en, sz, orp, ovl))
         if j % 8 == 1:
-            batched(ctx, env, mk('prev', KINDS[(j // 8) % 4], n, st, en, sz, orp, ovl))
+            batched(ctx, env, mk('prev', KINDS[(j // 8) % len(KINDS)], n, st, en, sz, orp, ovl))
         elif j % 8 == 5:
-            batched(ctx, env, mk('next', KINDS[(j // 8) % 4], n, st, en, sz, orp, ovl))
+            batched(ctx, env, mk('next', KINDS[(j // 8) % len(KINDS)], n, st, en, sz, orp, ovl))
         elif j % 32 == 7 and (st > 0 or en > 0 or sz > 0):
-            case = mk('literal', KINDS[(j // 32) % 4], n, st, en, sz, orp, ovl)
+            case = mk('literal', KINDS[(j // 32) % len(KINDS)], n, st, en, sz, orp, ovl)
             case['src'] = c11.literal_source(st if st > 0 else None, en if en > 0 else None,
                                              sz if sz > 0 else None, orp, ovl)
             ctx.count('literal-attribute renders')
@@ -436,7 +438,7 @@ def run(ctx, spec):
         orp = rng.randint(0, 12)
         eff = eff_size(st, en, sz)
         ovl = rng.choice([rng.randint(0, 8), rng.randint(0, 8), rng.randint(0, 2 * eff + orp + 4)])
-        tmpl = rng.choice(['full', 'full', 'min', 'pb', 'expr', 'prev', 'next'])
+        tmpl = rng.choice(['full', 'full', 'min', 'pb', 'expr', 'rev0', 'prev', 'next'])
         if tmpl == 'pb' and not ovl < eff:
             tmpl = 'full'
         ctx.count('seeded larger tuples')
